@@ -1,6 +1,7 @@
 (* C14 phase 2: agreement of the two reader models on modules without blackbox instances (part A1) *)
 From stdpp Require Import strings gmap sets pretty.
-From CG Require Import Model.FastVerilog Proofs.FastVerilogProofs Proofs.ApiProofs.
+From CG Require Import Proofs.FvA0.
+From CG Require Import Model.FastVerilog Proofs.FastVerilogProofs.
 Open Scope string_scope.
 
 Definition okname (n : string) : Prop := n ≠ "" ∧ starts_digit n = false.
